@@ -90,6 +90,44 @@ def json_plain(v):
     return False
 
 
+def rich_cases(ctx):
+    """deltas whose payload holds the other documented scalar types (Decimal, bytes, aware datetimes, date, time, timedelta, UUID, complex,
+    frozenset): outside the pickle vocabulary of the Lean model, so only the behavioural clauses are checked on the implementation"""
+    from deepdiff import DeepDiff, Delta
+    from ..deltas import py_eq_t
+    from . import _difffam as FAM
+    for (t1, t2) in FAM.rich_pairs(ctx, 300 if ctx.thorough() else 60):
+        for bidir in (False, True):
+            case = {'t1': repr(t1), 't2': repr(t2), 'mode': 'rich leaves', 'bidirectional': bidir, 'always_include_values': False}
+            ctx.evaluations += 1
+            try:
+                diff = DeepDiff(t1, t2)
+                d = Delta(diff, bidirectional=bidir, raise_errors=True)
+                want = copy.deepcopy(t1) + d
+            except Exception as e:
+                ctx.count('delta_build_failed:' + type(e).__name__); continue
+            ctx.count('mode:rich_leaves')
+            if d.diff:
+                ctx.nontriv((repr(t1), repr(t2), 'rich', bidir))
+            try:
+                b = d.dumps()
+                d2 = Delta(b, bidirectional=bidir, raise_errors=True)
+            except Exception as e:
+                ctx.violate(case, 'own dump does not load: %s: %s' % (type(e).__name__, str(e)[:100])); continue
+            if not (d2.diff == d.diff):              # not the bytes: the pickle of a set follows its iteration order, which a rebuild may change
+                ctx.violate(case, 'the reloaded payload %r differs from the original %r' % (d2.diff, d.diff))
+            try:
+                got = copy.deepcopy(t1) + d2
+                if not py_eq_t(got, want):
+                    ctx.violate(case, 'the reloaded delta gives %r, the original %r' % (got, want))
+                if bidir:
+                    a, b_ = copy.deepcopy(t2) - d, copy.deepcopy(t2) - d2
+                    if not py_eq_t(a, b_):
+                        ctx.violate(case, 'subtracting the reloaded delta gives %r, the original %r' % (b_, a))
+            except Exception as e:
+                ctx.violate(case, 'the reloaded delta raised %s where the original did not: %s' % (type(e).__name__, str(e)[:100]))
+
+
 def compare_func_cases(ctx):
     """deltas with moved items (records matched by an id through iterable_compare_func): the reloaded delta must carry an
     equal payload and behave like the original on every base"""
@@ -157,6 +195,7 @@ def run(ctx, impl_only=False):
     for i in range(n):
         pairs.append(gflat.pair(3) if i % 4 == 0 else g.pair(3))
     compare_func_cases(ctx)
+    rich_cases(ctx)
     tmpdir = tempfile.mkdtemp(prefix='verif_c14_')
     enc_lines, enc_meta, vm_lines, vm_meta = [], [], [], []
     try:
